@@ -49,8 +49,10 @@ class Sym:
 
 
 class CInterp:
-    def __init__(self, fn: CFunc):
+    def __init__(self, fn: CFunc, cfuncs: dict | None = None):
         self.fn = fn
+        self.cfuncs = cfuncs or {}
+        self.inline_depth = 0
         self.env = {}            # var -> value
         self.syms: dict[str, Sym] = {}
         self.accesses: list[Access] = []
@@ -159,6 +161,8 @@ class CInterp:
                 return ("float", None)
             if fn in ("__builtin_alloca", "alloca", "malloc"):
                 return ("alloca", e)
+            if fn in self.cfuncs and self.inline_depth < 4:
+                return self.inline(self.cfuncs[fn], e)
             self.err(e, f"call of unknown function `{fn}`")
         if k == "sizeof":
             return ("int", self.fresh("sizeof"))
@@ -167,12 +171,47 @@ class CInterp:
             a, b = self.ev(e.a[1]), self.ev(e.a[2])
             if a == b:
                 return a
-            return ("int", self.fresh("cond")) if a[0] == "int" else a
+            if a[0] == "int" and b[0] == "int":
+                return ("int", self.join_int(a[1], b[1], "cond"))
+            return a
         if k == "cassign":
             v = self.ev(e.a[1])
             self.assign(e.a[0], v, e)
             return v
         self.err(e, f"unsupported expression `{pp(e)}` ({k})")
+
+    def inline(self, callee: CFunc, e: X):
+        """Evaluate a call of a function defined in the same file by running its
+        body with the parameters bound to the argument values."""
+        args = [self.ev(a) for a in e.a[1]]
+        if len(args) != len(callee.params):
+            self.err(e, f"call of `{callee.name}` with {len(args)} arguments")
+        saved = self.env
+        self.env = dict(saved)
+        for (pn, pt), v in zip(callee.params, args):
+            if is_int_type(pt) and v[0] != "int":
+                v = ("int", self.fresh(pn))
+            elif not is_int_type(pt) and not is_ptr_type(pt):
+                v = ("float", pn)
+            self.env[pn] = v
+        self.inline_depth += 1
+        self._rets = []
+        try:
+            self.run(callee.body)
+        finally:
+            self.inline_depth -= 1
+        rets = self._rets
+        self.env = saved
+        if not rets:
+            return ("unk",)
+        if all(r == rets[0] for r in rets):
+            return rets[0]
+        if all(r[0] == "int" for r in rets):
+            out = rets[0][1]
+            for r in rets[1:]:
+                out = self.join_int(out, r[1], callee.name)
+            return ("int", out)
+        return ("float", None) if all(r[0] == "float" for r in rets) else ("unk",)
 
     def load(self, p, e):
         if p[0] != "ptr":
@@ -327,7 +366,9 @@ class CInterp:
             self.run(st.a[0])
         elif k in ("continue", "break", "return"):
             if k == "return" and st.a[0] is not None:
-                self.ev(st.a[0])
+                v = self.ev(st.a[0])
+                if self.inline_depth:
+                    self._rets.append(v)
         elif k == "while":
             self.err(st, "while loops are outside the analysed fragment")
         else:
